@@ -64,9 +64,11 @@ def generate(prop, seed):
             elif r < 0.8:
                 progs[ti].append(['announce'])
             elif r < 0.84:
-                progs[ti].append(['add_done_cb'])
+                progs[ti].append(['add_done_cb', rng.random() < 0.25])
             elif r < 0.88:
-                progs[ti].append(['add_cleanup'])
+                # (a cleanup or done callback may raise: the coordinator logs it
+                # and goes on, the recorded outcome is not affected)
+                progs[ti].append(['add_cleanup', rng.random() < 0.4])
             elif r < 0.93:
                 progs[ti].append(['done'])
             elif r < 0.97:
@@ -196,7 +198,7 @@ def execute(sc, choices=None, lenient=False):
         cbn = [0]
         last_cb = [None]
 
-        def mk_cb(kind):
+        def mk_cb(kind, raises=False):
             cbn[0] += 1
             name = '%s%d' % (kind, cbn[0])
             last_cb[0] = name
@@ -205,6 +207,8 @@ def execute(sc, choices=None, lenient=False):
                 sim.point('cb')
                 cb_runs.setdefault(name, []).append(
                     (sim.stamp(), coord.status, coord._done_event.is_set()))
+                if raises:
+                    raise _E(900 + cbn[0])
             return cb
 
         def worker(prog):
@@ -240,12 +244,12 @@ def execute(sc, choices=None, lenient=False):
                         record('announce', (), coord.announce_done)
                         a[1] = sim.stamp()
                 elif k == 'add_done_cb':
-                    cb = mk_cb('d')
+                    cb = mk_cb('d', len(op) > 1 and op[1])
                     name = last_cb[0]
                     h = record(k, (), lambda: coord.add_done_callback(cb))
                     cb_registered[name] = h['ret']
                 elif k == 'add_cleanup':
-                    cb = mk_cb('c')
+                    cb = mk_cb('c', len(op) > 1 and op[1])
                     name = last_cb[0]
                     h = record(k, (), lambda: coord.add_failure_cleanup(cb))
                     cb_registered[name] = h['ret']
